@@ -6,7 +6,8 @@
    py_gql/lang/printer.py (Lang/PrinterModel.v); [string_value], [block_value],
    [block_string_value], [strip_doc] are the specification side
    (Spec/PrinterSpec.v: GraphQL June 2018, 2.9.4). *)
-From PyGql Require Import Lang.Parser Spec.LexSpec Spec.GrammarSpec Proofs.PrinterRoundtrip Proofs.PrinterValueRoundtrip.
+From PyGql Require Import Lang.Parser Spec.LexSpec Spec.GrammarSpec Proofs.PrinterRoundtrip Proofs.PrinterValueRoundtrip
+                          Proofs.PrinterExecRoundtrip.
 From PyGql Require Import Lang.PrinterModel Spec.PrinterSpec Proofs.PrinterProofs.
 
 (* Quoted strings: reading the printed form of ANY string s (every code
@@ -109,6 +110,37 @@ Theorem C03_value_roundtrip : forall fl cf v,
 Proof. exact value_roundtrip. Qed.
 Print Assumptions C03_value_roundtrip.
 
+(* Executable documents: the round-trip law itself, through the parser model.
+   For every executable document that is well-formed in the sense of what the
+   parser produces ([wf_exec_doc]: at least one definition; operations and
+   fragments only; names are Names; fragment names and spreads are not "on";
+   type conditions are named types; selection sets non-empty and present
+   exactly when the field has one; values / types / directives / variable
+   definitions well-formed as above; fragment variable definitions only under
+   experimental_fragment_variables), every indent made of spaces and tabs,
+   locations off:  parsing the printed document gives the document back with
+   its locations erased.  Covers the whole layout: nested selection sets with
+   re-indentation (also inside block strings), aliases, arguments, directives,
+   variable definitions with defaults and constant directives, the query
+   shorthand, fragment definitions.  Composes the lexing of the printed layout
+   (Proofs/PrinterExecRoundtrip.v) with C01_exec_complete. *)
+Theorem C03_exec_roundtrip : forall fl ind d,
+  no_location fl = true -> all_ws ind -> wf_exec_doc (fragment_variables fl) d ->
+  parse_document fl (print_ast ind true d) = Ok (strip_doc d).
+Proof. exact exec_roundtrip. Qed.
+Print Assumptions C03_exec_roundtrip.
+
+(* ... hence printing the re-parsed document reproduces the same text. *)
+Theorem C03_exec_idempotent : forall fl ind d d',
+  no_location fl = true -> all_ws ind -> wf_exec_doc (fragment_variables fl) d ->
+  parse_document fl (print_ast ind true d) = Ok d' ->
+  print_ast ind true d' = print_ast ind true d.
+Proof.
+  intros fl ind d d' Hnl Hind Hwf Hp. rewrite (exec_roundtrip fl ind d Hnl Hind Hwf) in Hp.
+  inversion Hp; subst. apply pr_document_strip.
+Qed.
+Print Assumptions C03_exec_idempotent.
+
 (* the two independent transcriptions of BlockStringValue (C02's and C03's)
    are the same function *)
 Theorem C03_block_specs_agree : forall raw,
@@ -184,3 +216,19 @@ Example C03_example_value :
                                     VString blk true None; VObject [] None; VList [] None] None, None)] None in
   parse_value_str (Flags true false false) (pr_value (Cfg (str_of_string "  ") true) v) = Ok (strip_value v).
 Proof. cbv zeta. vm_compute. reflexivity. Qed.
+
+Example C03_example_exec_wf :
+  let nm x := Name (str_of_string x) (Some (3, 4)%nat) in
+  let d := Doc [DOperation OpQuery None [] [] (Some (0, 5)%nat)
+                  [SField None (nm "a") [] [] None [] (Some (2, 3)%nat)] (Some (0, 5)%nat)] None in
+  wf_exec_doc false d /\
+  parse_document (Flags true false false) (print_ast (str_of_string "  ") true d) = Ok (strip_doc d).
+Proof.
+  cbv zeta. assert (Hv : valid_name (str_of_string "a")) by (exists 97%N, []; repeat split; constructor).
+  assert (Hwf : wf_exec_doc false
+            (Doc [DOperation OpQuery None [] [] (Some (0, 5)%nat)
+                    [SField None (Name (str_of_string "a") (Some (3, 4)%nat)) [] [] None []
+                            (Some (2, 3)%nat)] (Some (0, 5)%nat)] None)).
+  { split; [discriminate|]. repeat constructor; try assumption; discriminate. }
+  split; [exact Hwf|]. apply exec_roundtrip; [reflexivity|reflexivity|exact Hwf].
+Qed.
